@@ -148,6 +148,19 @@ def generated_live(rng, k, t=None):
     return impl.live_of(r["value"][1])
 
 
+def filter_live(rng, k):
+    """A graph produced by the library's own pipeline from a realistic local filter (homopolymer limit 1..2, a GC window); such masks
+    are sparse in a structured way (e.g. no k-mer starts with AAA), unlike random masks."""
+    run = rng.choice([1, 2, 2])
+    lo, hi = rng.choice([(0.2, 0.8), (0.3, 0.7), (0.4, 0.6)])
+    flt = dsw.LocalBioFilter(observed_length=k, max_homopolymer_runs=run, gc_range=[lo, hi])
+    r = impl.call(dsw.find_vertices, k, flt, _alarm=120)
+    if r["out"] != "ok":
+        return None
+    r2 = impl.call(dsw.connect_coding_graph, k, r["value"], rng.choice([1, 2]), _budget=8 * 4 ** k + 16, _alarm=120)
+    return impl.live_of(r2["value"][1]) if r2["out"] == "ok" else None
+
+
 def random_table(rng, n):
     rows = []
     for _ in range(n):
